@@ -1,5 +1,4 @@
 package main
 
-func modeScalars()                    {}
 func modeChains(L, shard, shards int) {}
 func modeIter(n int, seed int64)      {}
